@@ -385,7 +385,7 @@ func (v *env) isNative(h util.Uint160) bool {
 // sets of the native method.
 func runCallbacks(run *ev.Run, v *env, ws *witnessState, cs *cbState) {
 	scs := v.cbScenarios(ws, cs)
-	nRandom := ev.Pick(12, 60)
+	nRandom := ev.Pick(12, 200)
 	if v.stage != "all" || v.variant != "" {
 		nRandom /= 3
 	}
